@@ -1,8 +1,8 @@
 (* C14 - Fault containment and clean shutdown (partial by nature).
    Model: Ext/Faults.v - the try/except/finally structure of World.run, gather-with-cancellation in scheduler.run and the
    sequential World.shutdown, over oracle outcomes of the sim_process tasks and of each stop().
-   Oracle assumption (trusted base, checked by the fault-injection harness on the real proxies): stop() of every
-   simulator returns (RemoteProxy.stop swallows TimeoutError/IncompleteReadError).
+   The theorems about what run() raises assume that stop() of every simulator returns (RemoteProxy.stop swallows
+   TimeoutError/IncompleteReadError); the clean-up itself needs no such assumption (C14_cleanup_is_unconditional).
    NOT in the model, observed only by harness/props/c14.py: promptness (elapsed time), process reaping, sockets. *)
 From Coq Require Import List Bool Arith.
 Import ListNotations.
@@ -24,6 +24,13 @@ Theorem C14_no_pending_tasks : forall procs e, first_failure procs = Some e ->
   forall i, nth i procs PDone = PWaiting -> nth i (cancelled procs) false = true.
 Proof. exact waiting_tasks_are_cancelled. Qed.
 Print Assumptions C14_no_pending_tasks.
-Theorem C14_oracle_assumption_needed_refuted :
-  exists procs stops_, let r := world_run procs stops_ in loop_closed r = false /\ length (stops r) < length stops_.
-Proof. exact stop_raising_breaks_containment_refuted. Qed.
+(* Since the repair of finding F25 (World.shutdown went on only while every stop() returned) the clean-up needs no assumption on
+   stop(): whatever fails during the run and whatever the stop() calls do - return, or raise, e.g. from a simulator's
+   finalize() - every simulator is stopped exactly once, in order, and the loop is closed; a stop() that raises makes run()
+   raise and is never reported as success.  (Before the repair this was C14_oracle_assumption_needed_refuted.) *)
+Theorem C14_cleanup_is_unconditional : forall procs stops_,
+  let r := world_run procs stops_ in
+  stops r = seq 0 (length stops_) /\ loop_closed r = true /\
+  ((exists e, In (SRaises e) stops_) -> raised r <> None /\ success_logged r = false).
+Proof. exact cleanup_is_unconditional. Qed.
+Print Assumptions C14_cleanup_is_unconditional.
